@@ -62,6 +62,20 @@ Fixpoint add_suffix (raw : list comp) : list comp :=
   | c :: r => c :: add_suffix r
   end.
 
+(* strengthening round 4: `folder.is_dir()` of a wildcard import is answered by the operating system, which WALKS the unresolved
+   path `file_path.parent / text`: every name on the way has to be an existing folder.  A detour `zz/..` through a name that does
+   not exist (or through a file) makes the folder "not found", although resolve() - used for the diagnostic, and for named
+   imports - folds the detour away lexically.  A folder exists iff the listing table has an entry for it. *)
+Definition step_comp (cur : apath) (c : comp) : apath :=
+  if String.eqb c ".." then removelast cur else cur ++ [c].
+Definition has_dir {A} (ds : list (apath * A)) (d : apath) : bool :=
+  existsb (fun kv => path_eqb (fst kv) d) ds.
+Fixpoint walk_ok {A} (ds : list (apath * A)) (cur : apath) (l : list comp) : bool :=
+  match l with
+  | [] => true
+  | c :: r => (String.eqb c ".." || has_dir ds (step_comp cur c)) && walk_ok ds (step_comp cur c) r
+  end.
+
 (* ------------------------------------------------------------------ source trees *)
 
 (* A top-level item of a .jmc file.  Load/Def carry an identifier; the import forms carry
@@ -141,6 +155,16 @@ Section Code.
     | Repaired => resolve cwd (join (parent self) (mkR abs (pynorm raw)))
     end.
 
+  (* where the walk to the folder of a wildcard starts *)
+  Definition wild_base (self : rpath) (abs : bool) : apath :=
+    match m with
+    | Pinned => resolve cwd (mkR abs [])
+    | Repaired => resolve cwd (join (parent self) (mkR abs []))
+    end.
+  (* `folder.is_dir()` and then `folder.glob("**/*.jmc")` *)
+  Definition wild_listing (self : rpath) (abs : bool) (raw : list comp) : option (list apath) :=
+    if walk_ok ds (wild_base self abs) (pynorm raw) then lookup ds (wild_dir self abs raw) else None.
+
   (* `for new_path in folder.glob(..): self.parse_file(new_path); self.__update_load(file_path_str, raw_string)` *)
   Fixpoint each_file (rec : rpath -> st -> result st) (id : apath) (fl : list apath) (s : st) : result st :=
     match fl with
@@ -162,7 +186,7 @@ Section Code.
         end
     | IWild abs raw :: r =>
         let d := wild_dir self abs raw in
-        match lookup ds d with
+        match wild_listing self abs raw with
         | None => Err (EDirNotFound d)
         | Some fl =>
             match each_file rec (resolve cwd self) fl (flush s) with
@@ -214,6 +238,9 @@ Section Spec.
   Definition spec_dir (self : apath) (abs : bool) (raw : list comp) : apath :=
     canon_from (spec_base self abs) (pynorm raw).
 
+  Definition spec_listing (self : apath) (abs : bool) (raw : list comp) : option (list apath) :=
+    if walk_ok ds (spec_base self abs) (pynorm raw) then lookup ds (spec_dir self abs raw) else None.
+
   Definition fres := result (list apath * list fitem).
 
   Fixpoint flat_each (rec : apath -> list apath -> fres) (fl : list apath) (seen : list apath) : fres :=
@@ -249,7 +276,7 @@ Section Spec.
         end
     | IWild abs raw :: r =>
         let d := spec_dir self abs raw in
-        match lookup ds d with
+        match spec_listing self abs raw with
         | None => Err (EDirNotFound d)
         | Some fl =>
             match flat_each rec fl seen with
